@@ -432,6 +432,24 @@ func genC07(t *rapid.T) C07Case {
 	for _, a := range l.Archives {
 		c.List = append(c.List, RawArch{Step: a.Step, Points: a.Points})
 	}
+	if rapid.IntRange(0, 11).Draw(t, "manyArchives") == 0 {
+		// 5-30 archives (headers of 76-376 bytes): steps double or triple, 2-4 points each
+		c.List = nil
+		n := rapid.IntRange(5, 30).Draw(t, "archiveCount")
+		step, prevRet := int64(1), int64(0)
+		for i := 0; i < n; i++ {
+			pts := rapid.Int64Range(3, 5).Draw(t, "fewPoints")
+			if step*pts <= prevRet {
+				pts = prevRet/step + 1
+			}
+			if step*pts > math.MaxInt32 {
+				break
+			}
+			c.List = append(c.List, RawArch{Step: step, Points: pts})
+			prevRet = step * pts
+			step *= int64(rapid.IntRange(2, 3).Draw(t, "stepRatio"))
+		}
+	}
 	k := len(c.List)
 	pick := func() int { return rapid.IntRange(0, k-1).Draw(t, "at") }
 	pickPair := func() int {
